@@ -188,3 +188,25 @@ def sample(ctx, p, lo, up, res):
         ctx.cov["samples"].append({"program": dsl.pretty(p), "lower": sorted(lo.ok)[:6], "lower_fails": sorted(lo.fails),
                                    "upper_size": len(up.all_keys), "loom": sorted(loomrun.loom_keys(res))[:6],
                                    "loom_end": res["end"], "loom_iters": res["iters"]})
+
+
+def validate_traces(ctx, progs, res, cfgname="MCTrace_upper.cfg", label="trace"):
+    """Every recorded iteration must be a behaviour of LoomSemTrace.  Programs that carry a listed
+    outcome-level finding are not trace-validated (their rejection is the same finding)."""
+    import tracecheck
+    listed = {k.get("prog_hash") for k in ctx.known.get("findings", [])}
+    hashes = [dsl.prog_hash(p) for p in progs]
+    skipped = sum(1 for h in hashes if h in listed)
+    rej = tracecheck.validate(ctx, progs, res, cfgname=cfgname, label=label, skip=lambda i: hashes[i] in listed)
+    ctx.cov["trace_skipped_known_finding_programs"] = ctx.cov.get("trace_skipped_known_finding_programs", 0) + skipped
+    for i, meta, info in rej:
+        ev = info["event"]
+        ctx.violation("trace-rejected", progs[i], {"end": meta["end"], "event": ev,
+                                                   "prefix": [[e.get("t"), e.get("pc"), e.get("res")] for e in info["matched_prefix"] if e["k"] == "op"]},
+                      {"trace": meta["trace"], "note": "first event LoomSemTrace could not match (spec state = after the prefix)"})
+    if len(ctx.cov["samples"]) < 6:
+        for p, r in zip(progs, res):
+            if r.get("traces"):
+                ctx.cov["samples"].append({"program": dsl.pretty(p), "validated_trace_[t,pc,res]": r["traces"][-1]})
+                break
+    return rej
